@@ -39,6 +39,9 @@ pub enum Plan {
 pub struct Case {
     pub me: Endpoint,
     pub plans: Vec<Plan>,
+    /// a graceful shutdown is under way while the requests run: the peer's GOAWAY (with an identifier that lets all
+    /// of them continue) is delivered after they have been started and before the first fault
+    pub goaway: bool,
 }
 
 /// every healthy head is padded to EXACTLY this RFC 9114 4.2.2 size: a healthy message sits at the limit, the
@@ -47,6 +50,14 @@ const LIMIT: u64 = 300;
 
 /// the healthy head of the role, padded with one regular field to exactly LIMIT
 fn healthy_head(me: Endpoint) -> Vec<u8> {
+    healthy_head_for(me, 0)
+}
+
+/// The head of the healthy message on stream `id`. On stream 4 the padding consists of bytes whose Huffman codes are
+/// 26 bits long and the section is Huffman-coded: the field section is still exactly LIMIT by the RFC 9114 4.2.2
+/// rule, but its encoded form on the wire is more than twice the limit (the limit is about the decoded size only).
+fn healthy_head_for(me: Endpoint, id: u64) -> Vec<u8> {
+    let heavy = id == 4;
     let f = |n: &str, v: &[u8]| (n.as_bytes().to_vec(), v.to_vec());
     let mut fields = match me {
         Endpoint::Server => vec![f(":method", b"GET"), f(":scheme", b"https"), f(":authority", b"a"), f(":path", b"/")],
@@ -54,8 +65,8 @@ fn healthy_head(me: Endpoint) -> Vec<u8> {
     };
     let have: u64 = fields.iter().map(|(n, v)| (n.len() + v.len() + 32) as u64).sum();
     let pad = (LIMIT - have - 3 - 32) as usize;
-    fields.push(f("pad", &vec![b'p'; pad]));
-    rf::frame(rf::HEADERS, &rq::encode_literal_section(&fields, false))
+    fields.push(f("pad", &vec![if heavy { 0xfe } else { b'p' }; pad]));
+    rf::frame(rf::HEADERS, &rq::encode_literal_section(&fields, heavy))
 }
 
 fn body_for(id: u64) -> Vec<u8> {
@@ -65,7 +76,7 @@ fn body_for(id: u64) -> Vec<u8> {
 fn healthy_message(me: Endpoint, id: u64) -> Vec<u8> {
     let mut b = Vec::new();
     match me {
-        Endpoint::Server | Endpoint::Client => b.extend(healthy_head(me)),
+        Endpoint::Server | Endpoint::Client => b.extend(healthy_head_for(me, id)),
     }
     let body = body_for(id);
     b.extend(rf::frame(rf::DATA, &body[..10]));
@@ -273,6 +284,21 @@ pub fn execute(case: &Case, seed: u64, read: Policy) -> Outcome {
                     net.raw_open(*id);
                 }
             }
+            if case.goaway {
+                if peer == SERVER {
+                    // the client must have started its requests before it learns of the shutdown
+                    let mut spins = 0;
+                    while ids.iter().any(|id| !net.lock().streams.contains_key(id)) && spins < 400 {
+                        spins += 1;
+                        yield_now().await;
+                    }
+                }
+                let id = if peer == SERVER { ids.len() as u64 * 4 } else { 0 };
+                net.raw_write(peer, ctrl, &rf::frame(rf::GOAWAY, &refimpl::varint::encode(id).unwrap()));
+                for _ in 0..3 {
+                    yield_now().await;
+                }
+            }
             let mut pos = vec![0usize; scripts.len()];
             let mut spins = 0;
             loop {
@@ -364,7 +390,7 @@ fn plan_name(p: Plan) -> String {
 
 pub fn judge(case: &Case, o: &Outcome) -> Vec<(String, String)> {
     let role = if case.me == Endpoint::Server { "server" } else { "client" };
-    let ctx = format!("{role} with concurrent requests {:?}", case.plans.iter().map(|p| plan_name(*p)).collect::<Vec<_>>());
+    let ctx = format!("{role} with concurrent requests {:?}{}", case.plans.iter().map(|p| plan_name(*p)).collect::<Vec<_>>(), if case.goaway { ", the peer's GOAWAY delivered after they were started" } else { "" });
     let mut out = Vec::new();
     for (t, p) in &o.panics {
         out.push((format!("C07:{role}:panic@{}", explore::panics::short_loc(p)), format!("{ctx}: task {t} panicked: {p}")));
@@ -507,7 +533,7 @@ pub fn run(args: &Args) -> i32 {
     let mut rep = Report::new("C07", args.tier, args.seed, "model_checking");
     rep.exhaustive = true;
     rep.rule = format!(
-        "{n} concurrent requests on one connection; each request is healthy or suffers one fault of {{RESET(0x10c) after 0 / 1 / header-boundary / mid-DATA bytes, RESET(0) mid-frame, STOP_SENDING(0x10c), uppercase field name in the head or in the trailers, missing :method/:status, LF in a value, section over the limit, FIN before HEADERS (server role)}}, healthy heads padded to exactly the configured limit; every assignment (including all healthy, and all faulty when homogeneous in the first two), for a real server and a real client against a scripted peer that plays the streams round-robin in three writes each. Every execution with <= {bound} deviations (scheduling among handler/request tasks, driver and script; an application pause between any two calls of the request API; chunk cuts and delayed delivery on every request stream), plus one-byte-per-read. Oracle: healthy requests deliver exactly their own position-coded bytes and complete, their responses are complete on the wire; no close(); drivers report no error; each faulty request reports the stream-level error the property names and never a connection error. states = distinct (transport cursors, per-request progress) fingerprints; non-trivial = executions with a deviation."
+        "{n} concurrent requests on one connection; each request is healthy or suffers one fault of {{RESET(0x10c) after 0 / 1 / header-boundary / mid-DATA bytes, RESET(0) mid-frame, STOP_SENDING(0x10c), uppercase field name in the head or in the trailers, missing :method/:status, LF in a value, section over the limit, FIN before HEADERS (server role)}}, healthy heads padded to exactly the configured limit (on the second stream Huffman-coded with 26-bit symbols, so that its encoded form is more than twice the limit while its size by the RFC rule is the limit); every assignment with exactly one faulty request (thorough: at least one healthy and one faulty) also while a graceful shutdown is under way (the peer's GOAWAY, with an identifier that lets all of them continue, delivered after the requests were started and before the first fault); every assignment (including all healthy, and all faulty when homogeneous in the first two), for a real server and a real client against a scripted peer that plays the streams round-robin in three writes each. Every execution with <= {bound} deviations (scheduling among handler/request tasks, driver and script; an application pause between any two calls of the request API; chunk cuts and delayed delivery on every request stream), plus one-byte-per-read. Oracle: healthy requests deliver exactly their own position-coded bytes and complete, their responses are complete on the wire; no close(); drivers report no error; each faulty request reports the stream-level error the property names and never a connection error. states = distinct (transport cursors, per-request progress) fingerprints; non-trivial = executions with a deviation."
     );
     rep.assumptions = vec!["a STOP_SENDING that arrives after the sending half completed is not reported (ok accepted)".into(), "client role: a response stream FIN-ed before HEADERS is not in the fault set (DESIGN.md 7)".into()];
     rep.bound_note = format!("{n} requests, deviation bound {bound}");
@@ -551,7 +577,11 @@ pub fn run(args: &Args) -> i32 {
             if n >= 3 && faulty == n && c[0] != c[1] {
                 continue; // keep all-faulty combos only when homogeneous in the first two (thorough size control)
             }
-            cases.push(Case { me, plans: c });
+            // a graceful shutdown under way: with every assignment that has at least one healthy and one faulty request
+            if faulty >= 1 && faulty < n && c.iter().filter(|p| **p == Plan::Healthy).count() >= 1 && (thorough || faulty == 1) {
+                cases.push(Case { me, plans: c.clone(), goaway: true });
+            }
+            cases.push(Case { me, plans: c, goaway: false });
         }
     }
     let seed = args.seed;
@@ -591,12 +621,12 @@ pub fn run(args: &Args) -> i32 {
         for k in 0..nontrivial.min(100_000) {
             acc.nontrivial.insert(h.finish().wrapping_add(k));
         }
-        viol.drain_into(acc, |choices| json!({"me": if case.me == Endpoint::Server {"server"} else {"client"}, "plans": case.plans.iter().map(|p| plan_json(*p)).collect::<Vec<_>>(), "choices": choices, "seed": seed}));
+        viol.drain_into(acc, |choices| json!({"me": if case.me == Endpoint::Server {"server"} else {"client"}, "plans": case.plans.iter().map(|p| plan_json(*p)).collect::<Vec<_>>(), "goaway": case.goaway, "choices": choices, "seed": seed}));
         // uniform one-byte reads
         let o = execute(case, seed, Policy::PerByte);
         acc.evaluations += 1;
         for (sig, msg) in judge(case, &o) {
-            acc.violation(format!("{sig}:one-byte-reads"), msg, (1, 0), || json!({"me": if case.me == Endpoint::Server {"server"} else {"client"}, "plans": case.plans.iter().map(|p| plan_json(*p)).collect::<Vec<_>>(), "choices": [], "seed": seed, "mode": "read1"}));
+            acc.violation(format!("{sig}:one-byte-reads"), msg, (1, 0), || json!({"me": if case.me == Endpoint::Server {"server"} else {"client"}, "plans": case.plans.iter().map(|p| plan_json(*p)).collect::<Vec<_>>(), "goaway": case.goaway, "choices": [], "seed": seed, "mode": "read1"}));
         }
     });
     let mut total = Acc::new();
@@ -611,7 +641,7 @@ pub fn run(args: &Args) -> i32 {
 }
 
 pub fn replay(r: &Value) -> i32 {
-    let case = Case { me: if r["me"] == "server" { Endpoint::Server } else { Endpoint::Client }, plans: r["plans"].as_array().unwrap().iter().map(plan_from).collect() };
+    let case = Case { me: if r["me"] == "server" { Endpoint::Server } else { Endpoint::Client }, plans: r["plans"].as_array().unwrap().iter().map(plan_from).collect(), goaway: r["goaway"].as_bool().unwrap_or(false) };
     let seed = r["seed"].as_u64().unwrap_or(0);
     let choices: Vec<u32> = r["choices"].as_array().unwrap().iter().map(|v| v.as_u64().unwrap() as u32).collect();
     println!("case: {:?} {:?} choices {:?}", case.me, case.plans.iter().map(|p| plan_name(*p)).collect::<Vec<_>>(), choices);
